@@ -511,3 +511,56 @@ Definition py_int_base (oracle : str -> Z -> option Z) (v base : pv) : pr pv :=
   | VObj _ _, _ => PStuck
   | _, _ => PRaise TypeError
   end.
+
+(* ---------- additions for loops and list / dict methods (third group) ---------- *)
+
+(* while True: body.  The body returns [VBool continue?; state]; fuel exhaustion is "not modelled" *)
+Fixpoint py_loop (fuel : nat) (st : pv) (body : pv -> pr pv) : pr pv :=
+  match fuel with
+  | O => PStuck
+  | S f =>
+      match body st with
+      | POk (VList [VBool true; st']) => py_loop f st' body
+      | POk (VList [VBool false; st']) => POk st'
+      | POk _ => PStuck
+      | PRaise e => PRaise e
+      | PStuck => PStuck
+      end
+  end.
+
+(* l.append(x): the new list *)
+Definition py_list_append (l x : pv) : pr pv :=
+  match l with
+  | VList xs => POk (VList (xs ++ [x]))
+  | VObj _ _ => PStuck
+  | _ => PRaise AttributeError
+  end.
+
+(* l.pop(): [popped value; the new list]; IndexError on an empty list *)
+Definition py_list_pop (l : pv) : pr pv :=
+  match l with
+  | VList xs => match rev xs with
+                | [] => PRaise IndexError
+                | x :: r => POk (VList [x; VList (rev r)])
+                end
+  | VObj _ _ => PStuck
+  | _ => PRaise AttributeError
+  end.
+
+(* d.get(k): the value or None *)
+Definition py_dict_get (d k : pv) : pr pv :=
+  match d, k with
+  | VDict kv, VStr key => POk (match vassoc key kv with Some v => v | None => VNone end)
+  | VDict _, (VList _ | VDict _) => PRaise TypeError
+  | VDict _, VObj _ _ => PStuck
+  | VDict _, _ => POk VNone
+  | VObj _ _, _ => PStuck
+  | _, _ => PRaise AttributeError
+  end.
+
+(* list(d.values()) in insertion order *)
+Definition py_dict_values (d : pv) : pr pv :=
+  match d with
+  | VDict kv => POk (VList (map snd kv))
+  | _ => PStuck
+  end.
